@@ -55,12 +55,13 @@ Record cparams := mkCP {
   cp_ptl_len : N;                     (* UC: number of bytes of the partial-window block (0x90) *)
   cp_defined : list N;                (* command bytes the family / vendor sequence defines *)
   cp_blocks : list (N * list N);      (* commands with a fixed-size block: allowed byte counts *)
-  cp_track : option (list N)          (* commands recorded in [c_seen]; None = all *)
+  cp_track : option (list N);         (* commands recorded in [c_seen]; None = all *)
+  cp_poff_wait : bool                 (* vendor sequence waits for BUSY to go to its active level after PowerOff (0x02) *)
 }.
 
 Definition with_track (p : cparams) (t : option (list N)) : cparams :=
   mkCP (cp_fam p) (cp_W p) (cp_H p) (cp_rowbytes p) (cp_x16 p) (cp_ramxe p) (cp_ramye p) (cp_planes p) (cp_refresh p)
-       (cp_deep07 p) (cp_power p) (cp_busy_cmds p) (cp_busy_low p) (cp_res_len p) (cp_ptl_len p) (cp_defined p) (cp_blocks p) t.
+       (cp_deep07 p) (cp_power p) (cp_busy_cmds p) (cp_busy_low p) (cp_res_len p) (cp_ptl_len p) (cp_defined p) (cp_blocks p) t (cp_poff_wait p).
 
 (** geometry an SSD burst is written under *)
 Record geom := mkGeom { g_entry : N; g_xs : N; g_xe : N; g_ys : N; g_ye : N; g_xc : N; g_yc : N }.
@@ -181,16 +182,18 @@ Definition uc_area (s : cstate) (p : cparams) : area :=
 
 Definition nth0 (l : list N) (i : nat) : N := nth i l 0.
 
-(** split [n] leading literal bytes off a segment list (each must come as a literal segment) *)
-Fixpoint take_lits (n : nat) (segs : list seg) : option (list N * list seg) :=
-  match n with
-  | O => Some ([], segs)
-  | S k => match segs with
-           | SData (DLit [b]) :: r =>
-               match take_lits k r with Some (h, rest) => Some (b :: h, rest) | None => None end
-           | _ => None
-           end
+(** split [n] leading literal bytes off a segment list (they must come in literal segments, in any
+    grouping: one [data] call per byte or several bytes per call) *)
+Fixpoint lit_prefix (segs : list seg) : list N * list seg :=
+  match segs with
+  | SData (DLit l) :: r => let '(h, rest) := lit_prefix r in (l ++ h, rest)
+  | _ => ([], segs)
   end.
+Definition take_lits (n : nat) (segs : list seg) : option (list N * list seg) :=
+  let '(h, rest) := lit_prefix segs in
+  if Nat.leb n (length h)
+  then Some (firstn n h, match skipn n h with [] => rest | tl => SData (DLit tl) :: rest end)
+  else None.
 
 (** latch the registers of a closed literal frame *)
 Definition latch (p : cparams) (s : cstate) (c : N) (par : list N) : cstate :=
@@ -240,7 +243,13 @@ Definition close (p : cparams) (s : cstate) : cstate * list effect :=
               let n := segslen segs in
               let s1 := match advance (c_snap s) n with
                         | Some (x, y) => upd_ssd s0 (c_entry s) (c_xs s) (c_xe s) (c_ys s) (c_ye s) x y (c_upd2 s)
-                        | None => if n =? 0 then s0 else upd_flags s0 (c_deep s) (c_on s) (c_pending s) (c_seen s) (c_last s) true
+                        | None =>
+                            (* counter outside the window / unmodelled entry mode: where the bytes went is
+                               unknown; the counters become unknown (an impossible value) until the driver
+                               programs them again *)
+                            if n =? 0 then s0
+                            else upd_flags (upd_ssd s0 (c_entry s) (c_xs s) (c_xe s) (c_ys s) (c_ye s) 65535 65535 (c_upd2 s))
+                                           (c_deep s) (c_on s) (c_pending s) (c_seen s) (c_last s) true
                         end in
               (s1, [EBurstSsd c pl (c_snap s) segs])
           | Uc =>
@@ -262,7 +271,7 @@ Definition close (p : cparams) (s : cstate) : cstate * list effect :=
             (s0, (if block_ok p c (c_np s) then [] else [EBlock c (c_np s)]) ++
                  [EPattern c (if c =? 0x47 then P1 else P2) (geom_of s) (nth0 par 0%nat)])
           else
-          let s1 := if c_tainted s then s0 else latch p s0 c par in
+          let s1 := latch p s0 c par in
           let e1 := if block_ok p c (c_np s) then [] else [EBlock c (c_np s)] in
           let e2 := if is_lut_cmd p c then [ELut c par] else [EReg c par] in
           let s2 := s1 in
@@ -291,6 +300,8 @@ Definition cstep (p : cparams) (s : cstate) (i : icall) : cstate * list effect :
   | IWait bl =>
       if Bool.eqb bl (cp_busy_low p)
       then (upd_flags s (c_deep s) (c_on s) false (c_seen s) (c_last s) (c_tainted s), [])
+      else if cp_poff_wait p && match c_last s with Some 2 => true | _ => false end
+      then (s, [])      (* the vendor's reference sequence waits for the line to go active after PowerOff *)
       else (s, [EWaitPolarity bl])
   | IWaitCmd bl c =>
       (* status command(s) then polling; the status command closes the open frame *)
